@@ -18,6 +18,10 @@ import models as M
 from common import Check, MachineryError, main_wrapper, run_tlc, run_workers, worker_main
 
 BASE = [["O", (0.03, -0.02, 0.05)], ["H", (0.10, 0.93, 0.21)], ["F", (-0.84, -0.31, 1.02)]]
+# a REPEATED element at inequivalent positions: relabelling can put another element between its two atoms (H,O,H), which
+# is where per-element tables indexed by a running offset go wrong
+BASE2 = [["O", (0.03, -0.02, 0.05)], ["H", (0.10, 0.93, 0.21)], ["H", (-0.71, -0.42, 0.55)]]
+BASES = {"OHF": BASE, "OHH": BASE2}
 
 
 def group48():
@@ -38,9 +42,9 @@ def rot(axis, ang):
     return np.eye(3) + np.sin(ang) * K + (1 - np.cos(ang)) * K.dot(K)
 
 
-def build(R, t, perm, cfg, level, seed):
+def build(R, t, perm, cfg, level, seed, base="OHF"):
     from pyscf import gto
-    atoms = [BASE[i] for i in perm]
+    atoms = [BASES[base][i] for i in perm]
     atoms = [[a, tuple(R.dot(np.array(c)) + t)] for a, c in atoms]
     mol = gto.M(atom=atoms, basis="sto-3g", verbose=0, unit="Angstrom")
     ks = e2e.make_session(cfg, mol, False, seed, level=level)
@@ -94,9 +98,9 @@ def check(job):
     viol, n = [], 0
     tag = "%s+%s:%s" % (cfg["nldf"], cfg["sdmx"], job["kind"])
     try:
-        mol0, ks0 = build(np.eye(3), np.zeros(3), [0, 1, 2], cfg, job["level"], job["seed"])
+        mol0, ks0 = build(np.eye(3), np.zeros(3), [0, 1, 2], cfg, job["level"], job["seed"], job.get("base", "OHF"))
         ref = invariants(mol0, ks0, job["features"])
-        mol1, ks1 = build(R, t, perm, cfg, job["level"], job["seed"])
+        mol1, ks1 = build(R, t, perm, cfg, job["level"], job["seed"], job.get("base", "OHF"))
         new = invariants(mol1, ks1, job["features"])
     except Exception as ex:
         return {"id": job["id"], "viol": [{"site": "exception:%s:%s" % (type(ex).__name__, tag), "detail": {"job": job, "msg": str(ex)[:300]}}], "n": 0}
@@ -155,15 +159,19 @@ def main():
         gsel, fams_q = G, fams
     jobs = []
 
-    def add(kind, R, t, perm, cfg, level=0, features=True, tol=None):
+    def add(kind, R, t, perm, cfg, level=0, features=True, tol=None, base="OHF"):
         jobs.append({"id": len(jobs), "kind": kind, "R": np.asarray(R).tolist(), "t": list(t), "perm": list(perm), "cfg": cfg, "level": level,
-                     "features": features, "seed": 3, "tol": tol})
+                     "features": features, "seed": 3, "tol": tol, "base": base})
     for cfg in fams_q:
         for R in gsel:
             add("octahedral", R, (0, 0, 0), (0, 1, 2), cfg)
         for perm in itertools.permutations(range(3)):
             if perm != (0, 1, 2):
                 add("atom-permutation", np.eye(3), (0, 0, 0), perm, cfg, features=False)
+        for perm in itertools.permutations(range(3)):
+            if perm != (0, 1, 2):
+                add("atom-permutation:repeated-element", np.eye(3), (0, 0, 0), perm, cfg, features=(perm == (1, 0, 2)), base="OHH")
+        add("octahedral+permutation:repeated-element", gsel[7], (0, 0, 0), (1, 0, 2), cfg, level=1, features=False, base="OHH")
         add("translation", np.eye(3), (1.37, -2.2, 0.61), (0, 1, 2), cfg)
         add("octahedral+translation+permutation", gsel[1], (0.3, 0.9, -1.1), (2, 0, 1), cfg, features=False)
         if not quick:
